@@ -13,6 +13,7 @@ import Jsonapi.Driver.Unmarshal
 import Jsonapi.Driver.Url
 import Jsonapi.Driver.Alias
 import Jsonapi.Driver.Codec
+import Jsonapi.Driver.Request
 open Jsonapi Jsonapi.Driver
 
 structure DState where
@@ -56,6 +57,9 @@ def stepLine (st : DState) (line : String) : DState × String :=
   | [.list (.atom "alias" :: args)] =>
     let (a', m) := stepAlias st.alias args
     ({ st with alias := a' }, m ++ "\t-\t1")
+  | [.list (.atom "request" :: args)] =>
+    let (m, sp, dom) := stepRequest args
+    (st, m ++ "\t" ++ sp ++ "\t" ++ (if dom then "1" else "0"))
   | [.list (.atom "codec" :: args)] =>
     let (m, sp, dom) := stepCodec args
     (st, m ++ "\t" ++ sp ++ "\t" ++ (if dom then "1" else "0"))
